@@ -58,6 +58,10 @@ CHECKS = [
          technique='TLC on Session.tla (OMEN cut, stale option, last pre-terminal) + real CrackingSession.run histories that quit inside a Markov level at every position j followed by further quit/resume cycles (inside the remainder, outside OMEN, inside the replay) validated by TrSession; real MarkovCracker save_session/load_session at every cut j validated by TrOmen (resume = suffix of the uninterrupted sequence)',
          text='All cut positions inside each Markov level of generated rulesets, with later quits, are run on the real session code with the real pickle files; TLC accepts a history only if each session continues exactly where the previous one stopped (C08\'s tied-group replay of a last Markov level allowed).',
          note='The scripted keyboard thread sets should_exit after the n-th printed guess. Fresh Optimizer after resume.'),
+    dict(pid='C07', cat=MC, design='5/C07',
+         technique='TLA+ LineFormat.tla over character behaviour classes whose reader constants (what the input filter rejects, what each of the four readers splits on / strips) are measured from the real functions on every run; TLC checks the round-trip invariant for every accepted value up to the bound and predicts violations; real trainings with every accepted special character in every position and encoding are loaded by the real guesser loader, scorer loader, OMEN loader and OmenScorer and compared record by record with the LF-only neutral reading by TLC (TrLine), plus config.ini file lists vs files present',
+         text='The class partition covers all 0x110000 code points; the model is exhaustive over class strings given the measured reader behaviour; the verdict comes from real write/read round trips through all four loaders in utf-8, iso-8859-1, cp1251 and utf-16.',
+         note='Reader behaviour is measured on every member of the small classes and on sampled members of ORD/NONBMP. The neutral reader (LF-only, last TAB) is the statement of what the format means.'),
 ]
 
 NOT_YET = {
